@@ -11,7 +11,7 @@ META = {
     "level": "proof",
     "design_ref": "DESIGN.md §6 C18, notes/design-value.md",
     "text": "groupByA (Qentem/Model/Group.lean) transcribes Value.hpp GroupBy; groupBySpec is the left fold 'find the member by name, take the text of its value, append the object minus that member to that group, groups in first-appearance order'. Theorems relate the two for every array of objects that each contain the key (removed members allowed), and show that every input object lands in exactly one group and that the source is untouched. Each run builds arrays of 0-6 objects through the public API (key at every member position, string/number/bool/null/real key values, members of every kind, removed members before and after the key, nested removed members) and compares the real GroupBy result with the model (whole forest dump) and with the specification (abstract view of the groups).",
-    "note": "Trusted: Lean kernel; axioms ⊆ {propext, Quot.sound, Classical.choice}; harness and generators. The theorems are about the repaired behaviour (removed items are skipped, notes/fix-groupby-removed-member.diff); the check models the tree as it is (it detects which behaviour the headers have) and reports the unrepaired behaviour as failing inputs. The template loop's group= attribute calls GroupBy directly (Template.hpp renderLoop); its rendering is covered by C02.",
+    "note": "Trusted: Lean kernel; axioms ⊆ {propext, Quot.sound, Classical.choice}; harness and generators. Model and theorems are about the repaired behaviour (removed items are skipped, /repo 04169f1); a tree without the repair is reported through failing inputs with key groupby-removed-member. The template loop's group= attribute calls GroupBy directly (Template.hpp renderLoop); its rendering is covered by C02.",
 }
 
 THEOREMS = [
@@ -137,8 +137,6 @@ def run(ctx):
     exe = ctx.build_harness("value_harness.cpp")
     if not (drv and exe):
         return
-    token = V.detect_token(exe)
-    ctx.notes.append("GroupBy behaviour of the tree on removed items: " + ("skips them (repaired)" if token == "grpfix" else "returns false (unrepaired)"))
     cases = gen_cases(ctx)
     corpus = []
     for fn in sorted(glob.glob(os.path.join(core.VERIF, "corpus", "C18", "*.txt"))):
@@ -153,7 +151,7 @@ def run(ctx):
     cases = corpus + cases
     seq, view, spec = [], [], []
     for c in cases:
-        ops = [o.replace("GRP", token) if o.startswith("GRP") else o for o in c.ops]
+        ops = [o.replace("GRP", "grp") if o.startswith("GRP") else o for o in c.ops]
         seq.append(V.line_of(ops))
         view.append(V.line_of(ops, cmd="valview"))
         spec.append(V.line_of(ops, cmd="valspec"))
@@ -176,7 +174,7 @@ def run(ctx):
             model_fixed.append(""); expect.append("")
             continue
         parts = dict(p.split("=", 1) for p in so.split(" "))
-        sp, fx = parts["spec"], parts["fixed"]
+        sp, fx = parts["spec"], parts["model"]
         if sp == "none":
             model_fixed.append(fx); expect.append(fx)
             continue
@@ -200,8 +198,8 @@ def run(ctx):
             a = steps[-1].split("#")
             if len(a) == 5 and len(b) == 5 and a[2] != b[2]:
                 ctx.fail("groupby-source-changed", "GroupBy changed its source: %s -> %s" % (b[2][:200], a[2][:200]), {"line": seq[i]})
-    # the repaired model against the specification (an instance check of groupBy_eq_spec)
-    ctx.correspond("repaired-model-vs-specification", spec, expect, model_fixed, nontrivial=nontriv, show=lambda s: s[:300])
+    # the model against the specification (an instance check of groupBy_eq_spec)
+    ctx.correspond("model-vs-specification", spec, expect, model_fixed, nontrivial=nontriv, show=lambda s: s[:300])
     ctx.count("specification-on-impl-output", n_dom, n_dom)
     ctx.notes.append("cases %d, inside the quantifier %d, of which with removed members %d" % (len(cases), n_dom, n_removed))
     ctx.assumptions += [
